@@ -25,7 +25,8 @@ func (core *JApiCore) processPasteDirectiveList(list []*directive.Directive) *je
 func (core *JApiCore) processDirective(d *directive.Directive) *jerr.JApiError {
 	if d.Type() == directive.Paste {
 		if je := core.processPasteDirective(d); je != nil {
-			return d.KeywordError(je.Error())
+			// The message alone: Error() renders the include chain of the inner error into the text.
+			return d.KeywordError(je.Msg)
 		}
 		return nil
 	}
